@@ -494,6 +494,7 @@ func runC06(p *core.Prog, r *core.Report) {
 			arg   ssa.Value
 		}
 		var sinks []sink
+		var narrow []string
 		core.Instrs(fn, func(in ssa.Instruction) {
 			c, ok := in.(*ssa.Call)
 			if !ok {
@@ -506,6 +507,9 @@ func runC06(p *core.Prog, r *core.Report) {
 			switch {
 			case cl.Name() == "PutUint64" && len(c.Call.Args) >= 2:
 				sinks = append(sinks, sink{"InitialBlock", c.Call.Args[len(c.Call.Args)-1]})
+			case (cl.Name() == "PutUint32" || cl.Name() == "PutUint16") && len(c.Call.Args) >= 2 && hasFieldNamed(core.Trace(c.Call.Args[len(c.Call.Args)-1], 0), "InitialBlock"):
+				// a 64-bit field written through a narrower carrier: its upper bits do not reach the hash
+				narrow = append(narrow, cl.Name()+" at "+p.Pos(c.Pos()))
 			case cl.Name() == "WriteString" || cl.Name() == "Write":
 				arg := c.Call.Args[len(c.Call.Args)-1]
 				for _, f := range []string{"BinaryEntrypoint", "Type", "Content"} {
@@ -523,6 +527,10 @@ func runC06(p *core.Prog, r *core.Report) {
 			ok, why := allLeavesAre(sk.arg, sk.field)
 			seenF[sk.field] = true
 			r.Check(ok, "C06.R1", "hashModule/unconditional/"+sk.field, "the field "+sk.field+" is hashed as it is for every module: no path writes a constant or another value in its place", "on some path the value written instead of the field is "+why, p.Pos(fn.Pos()))
+		}
+		if len(narrow) > 0 {
+			seenF["InitialBlock"] = true
+			r.Check(false, "C06.R1", "hashModule/unconditional/InitialBlock", "the field InitialBlock is hashed as it is for every module: all 64 bits, no path writes a constant or another value in its place", "the initial block is written through a narrower carrier ("+strings.Join(narrow, ", ")+"): initial blocks that differ by a multiple of 2^32 get the same identifier", p.Pos(fn.Pos()))
 		}
 		if !seenF["InitialBlock"] || !seenF["BinaryEntrypoint"] {
 			core.Undecide("hashModule: the writes of InitialBlock / BinaryEntrypoint were not found")
